@@ -264,7 +264,11 @@ pub fn quantize(a: i128, p: u8, b: i128, q: u8, mode: RoundingMode) -> (Expect, 
     let e = if res.is_zero() {
         Expect::Value { c: I512::ZERO, s: 0, max_scale: 18 }
     } else if !res_fits {
-        if is_min_edge(&res) { Expect::Either(Box::new(val)) } else { Expect::Fail }
+        // not representable with the quantum's scale; still a value if the
+        // multiple is representable with fewer fractional digits (e.g. the
+        // quantum is 1.0 and the implementation returns the count itself)
+        let (nc, _) = normalize(&res, q);
+        if is_min_edge(&res) || in_range(&nc) { Expect::Either(Box::new(val)) } else { Expect::Fail }
     } else if !count_fits {
         Expect::Either(Box::new(val))
     } else {
